@@ -270,6 +270,7 @@ def check_property(pid, tier, seed, shared=None):
         tt, _ = thorough.tightness(pid, workers=3)
         ev['coverage']['tightness_mutants'] = tt
         ev['coverage']['seeded_changes_regression'] = thorough.seeds(pid, workers=3)
+        ev['coverage']['harmless_changes_regression'] = thorough.harmless_for(G, pid, cap=8, workers=4, seed=int(seed or 0))
         from . import automut
         ev['coverage']['systematic_mutants'] = automut.for_property(G, pid, cap=24, workers=5, seed=int(seed or 0))
         # Kani leaves: complete (loop-free, full-domain) proofs on the compiled code; a failing one is a violation of C05/C01
